@@ -309,16 +309,24 @@ def history_prologue(dev):
     o = others[(h // 100) % len(others)]
     if os.environ.get('VERIF_NO_PROLOGUE'):
         return dev, []
+    listing = (h // 7) % 5 == 0
     f = os.environ.get('VERIF_FORCE_PROLOGUE')
     if f:                       # replays try every variant (check.py --replay)
         r = [0, 60, 80, 90, 97][int(f) % 5]
         o = others[(int(f) // 5) % len(others)]
+        listing = (int(f) // 10) % 2 == 1
+    # display commands change nothing: a listing of the LAST cell of the address space holding a 3-byte opcode
+    # (its operand bytes wrap to address 0), with that cell restored afterwards, leaves the documented state
+    # of a fresh monitor (seeded change C12-5 swapped the device's memory for the listing and did not put it
+    # back when the listing raised)
+    top = 'ffffffff' if dev == '65Org16' else 'ffff'
+    tail = ['fill %s ad' % top, 'disassemble %s' % top, 'fill %s 0' % top] if listing else []
     if r < 50:
-        return dev, []
+        return dev, tail
     if r < 75:
-        return o, ['mpu %s' % dev]
+        return o, ['mpu %s' % dev] + tail
     if r < 85:
-        return dev, ['reset']
+        return dev, ['reset'] + tail
     if r < 95:
-        return o, ['mpu %s' % dev.lower(), 'reset']
-    return dev, ['mpu %s' % o, 'mpu %s' % dev]
+        return o, ['mpu %s' % dev.lower(), 'reset'] + tail
+    return dev, ['mpu %s' % o, 'mpu %s' % dev] + tail
